@@ -42,6 +42,9 @@ type Block struct {
 type IdxEntry struct {
 	Key string
 	Pos uint64
+	// ValOff/ValLen: where the position varint sits, relative to the start of the block
+	// (only meaningful for uncompressed blocks)
+	ValOff, ValLen int
 }
 
 type ObjEntry struct {
@@ -81,6 +84,7 @@ type Options struct {
 }
 
 type decoder struct {
+	curValOff int
 	data     []byte
 	body     []byte
 	info     *Info
@@ -418,6 +422,7 @@ func (d *decoder) decodeBlock(b *Block, content []byte, hoff int, prevKey string
 		first = false
 		key = nk
 		pos += s1 + s2 + sl
+		d.curValOff = pos
 		vn, ok := d.decodeValue(b, content[pos:rstart], key, vt)
 		if !ok {
 			return false
@@ -567,7 +572,7 @@ func (d *decoder) decodeValue(b *Block, buf []byte, key string, vt int) (int, bo
 		if vt != 0 {
 			d.fail("index.value", "index block at %d: value_type %d", b.Off, vt)
 		}
-		b.Idx = append(b.Idx, IdxEntry{key, p})
+		b.Idx = append(b.Idx, IdxEntry{Key: key, Pos: p, ValOff: d.curValOff, ValLen: s})
 		return s, true
 	case 'o':
 		n := 0
